@@ -9,7 +9,7 @@ ID = "C11"
 COQ_IMPORT = "Corr.CNodes"
 COQ_CASE_TYPE = "g_case"
 COQ_CHECK = "g_check"
-THEOREMS = []
+THEOREMS = ["c11_order", "c11_naming_scheme", "c11_names_distinct", "c11_decimal_injective", "c11_class_names_have_no_underscore", "c11_edges_chain", "c11_from_list"]
 PROOF_FILES = ["Proofs/FromListProofs.v"]
 RULE = ("sequences of length 1..40 over the 15 leaf classes (+ Input first / Output last or absent) with heavy "
         "repetition (>= 12 repeats to cross _9 -> _10; the i/if/li/lif/linear prefix family), nodes with undefined "
